@@ -425,6 +425,8 @@ Lemma read_exact a n buf :
     open_pages (rr_events r) [] = [].
 Proof.
   intros Hw Hl. unfold ReadModel.read_locked.
+  pose proof ps_pos as Hpp.
+  destruct (N.eqb_spec page_size 0) as [Hz|_]; [lia|]. rewrite andb_false_r.
   destruct (read_loop_pw (S (N.to_nat n)) a n buf 0 []) as (pages & ->); try lia.
   rewrite prefix_pw_spec by lia. cbn [fst snd].
   eexists; split; [reflexivity|]. cbn [rr_plength rr_buffer rr_status rr_events].
@@ -870,6 +872,36 @@ Proof.
   - destruct k eqn:Ek; [now left|right]. rewrite <- Ek. apply prefix_boundary; lia.
 Qed.
 
+Lemma prefix_len_full n : forall a,
+  (forall i, (i < n)%nat -> mem (a + N.of_nat i) <> None) -> prefix_len a n = n.
+Proof.
+  induction n as [|n IH]; intros a H; [reflexivity|]. simpl.
+  destruct (mem a) as [b|] eqn:Hm.
+  - f_equal. apply IH. intros i Hi. specialize (H (S i) ltac:(lia)).
+    now replace (a + 1 + N.of_nat i) with (a + N.of_nat (S i)) by lia.
+  - exfalso. specialize (H 0%nat ltac:(lia)). simpl in H. rewrite N.add_0_r in H. contradiction.
+Qed.
+
+(** a read whose last byte is 0xffffffffffffffff: the incremented address
+    wraps to 0 after the last copy, and is not used again *)
+Lemma read_top a n buf :
+  a + n = W -> length buf = N.to_nat n ->
+  (forall i, (i < N.to_nat n)%nat -> mem (a + N.of_nat i) <> None) ->
+  exists r, read_locked (S (N.to_nat n)) a n buf = RDone r /\
+    rr_status r = KDUMP_OK /\ rr_plength r = n /\
+    rr_buffer r = prefix_bytes a (N.to_nat n) /\
+    forall i, (i < N.to_nat n)%nat -> nth_error (rr_buffer r) i = mem (a + N.of_nat i).
+Proof.
+  intros Hw Hl Hall.
+  destruct (read_exact a n buf ltac:(lia) Hl) as (r & Hr & Hpl & Hbuf & Hs & _).
+  pose proof (prefix_len_full _ _ Hall) as Hk. rewrite Hk in *.
+  exists r. split; [exact Hr|]. split; [|split; [lia|split]].
+  - rewrite Hs. unfold stop_of. rewrite Hk, Nat.eqb_refl. reflexivity.
+  - rewrite Hbuf, skipn_all2 by lia. apply app_nil_r.
+  - intros i Hi. rewrite Hbuf, skipn_all2, app_nil_r by lia.
+    apply prefix_bytes_nth. lia.
+Qed.
+
 Lemma read_zero a buf :
   read_locked 1 a 0 buf =
   RDone {| rr_status := KDUMP_OK; rr_plength := 0; rr_buffer := buf; rr_events := [] |}.
@@ -887,6 +919,8 @@ Lemma string_exact repaired fuel a oracle r :
       (sr_status r = KDUMP_ERR_SYSTEM /\ In false oracle))).
 Proof.
   intros Hw Hr. unfold ReadModel.read_string_locked in Hr.
+  pose proof ps_pos as Hpp.
+  destruct (N.eqb_spec page_size 0) as [Hz|_]; [lia|].
   destruct (string_loop_pw _ _ _ _ _ _ _ _ Hw Hr) as [H1 H2]. cbn zeta in H1, H2. split.
   - intro H0. destruct (H1 H0) as (id & s & Hs & Hc). exists id, s. split; [exact Hs|].
     now apply (proj1 (cstring_pw_sound fuel a)).
@@ -905,17 +939,27 @@ Proof.
   pose proof (cstring_pw_complete fuel a s Hs Hf) as Hc.
   destruct (string_loop_complete repaired fuel a None oracle 0%nat [] s Hw Hc Hor)
     as (r & Hr & Hst & id & Hstr).
-  exists r, id. auto.
+  exists r, id. unfold ReadModel.read_string_locked.
+  pose proof ps_pos as Hpp.
+  destruct (N.eqb_spec page_size 0) as [Hz|_]; [lia|]. auto.
 Qed.
 
 Lemma string_no_leak_top fuel a oracle r :
   read_string_locked true fuel a oracle = SDone r ->
   outstanding (sr_events r) [] = ids (sr_string r).
-Proof. intro Hr. now apply (string_no_leak _ _ _ _ _ _ _ Hr). Qed.
+Proof.
+  unfold ReadModel.read_string_locked. destruct (page_size =? 0).
+  - intro Hr. inversion Hr. reflexivity.
+  - intro Hr. now apply (string_no_leak _ _ _ _ _ _ _ Hr).
+Qed.
 
 Lemma string_balanced_top repaired fuel a oracle r :
   read_string_locked repaired fuel a oracle = SDone r ->
   open_pages (sr_events r) [] = [].
-Proof. intro Hr. now apply (string_pages_balanced _ _ _ _ _ _ _ _ Hr). Qed.
+Proof.
+  unfold ReadModel.read_string_locked. destruct (page_size =? 0).
+  - intro Hr. inversion Hr. reflexivity.
+  - intro Hr. now apply (string_pages_balanced _ _ _ _ _ _ _ _ Hr).
+Qed.
 
 End Proofs.
